@@ -107,6 +107,7 @@ type FT struct {
 	init0   map[string]string
 	entry   *State
 	axUsed  map[string]bool
+	finfo   []factInfo
 }
 
 type site struct {
@@ -549,11 +550,10 @@ func (ft *FT) inputVal(name string, t types.Type, st *State) Val {
 // typeInv asserts machine-range facts for a value of Go type t.
 func (ft *FT) typeInv(term string, t types.Type, st *State) {
 	switch u := t.Underlying().(type) {
-	case *types.Basic:
-		if lo, hi, ok := intRange(u); ok {
-			ft.fact(fmt.Sprintf("(and (<= %s %s) (<= %s %s))", lo, term, term, hi))
-		}
+	case *types.Basic, *types.Struct:
+		ft.valueInv(term, t, 0)
 	case *types.Pointer:
+		_ = u
 		nx := ft.stateGet(ft.entry, "$next", "Int")
 		ft.fact(fmt.Sprintf("(and (<= 0 %s) (< %s %s))", term, term, nx))
 	}
@@ -967,10 +967,28 @@ func (fr *frame) loopHeader(h *ssa.BasicBlock, body map[*ssa.BasicBlock]bool, st
 	return nst
 }
 
-func (ft *FT) typeInvLoop(term string, t types.Type) {
-	if b, ok := t.Underlying().(*types.Basic); ok {
-		if lo, hi, ok := intRange(b); ok {
+// typeInvLoop asserts what Go's type system guarantees about a value: integer ranges, also of struct fields.
+func (ft *FT) typeInvLoop(term string, t types.Type) { ft.valueInv(term, t, 0) }
+
+func (ft *FT) valueInv(term string, t types.Type, depth int) {
+	switch u := t.Underlying().(type) {
+	case *types.Basic:
+		if lo, hi, ok := intRange(u); ok {
 			ft.fact(fmt.Sprintf("(and (<= %s %s) (<= %s %s))", lo, term, term, hi))
+		}
+	case *types.Struct:
+		if depth > 2 {
+			return
+		}
+		si := ft.g.reg.structs[ft.g.reg.SortOf(t)]
+		if si == nil {
+			return
+		}
+		for i, f := range si.Fields {
+			switch si.FTypes[i].Underlying().(type) {
+			case *types.Basic, *types.Struct:
+				ft.valueInv("("+f+" "+term+")", si.FTypes[i], depth+1)
+			}
 		}
 	}
 }
